@@ -99,6 +99,10 @@ def make_pool(darsia, rng):
         P["U8a"] = darsia.ScalarImage(rs.randint(0, 100, size=(H, W)).astype(np.uint8), dimensions=[0.5 * H, 0.25 * W])
         P["U8b"] = darsia.ScalarImage(rs.randint(0, 100, size=(H, W)).astype(np.uint8), dimensions=[0.5 * H, 0.25 * W])
         P["F32"] = darsia.ScalarImage(rs.rand(H, W).astype(np.float32), dimensions=[0.5 * H, 0.25 * W])
+    # regions of interest the caller keeps (and uses again): voxel / coordinate corner arrays inside the image and sticking out
+    P["roi_vox_in"] = darsia.make_voxel([[0, 0], [2, 2]])
+    P["roi_vox_out"] = darsia.make_voxel([[-3, 1], [H + 2, W + 4]])
+    P["roi_xy_out"] = darsia.make_coordinate([[-1.0, -2.0], [0.2 * W, 0.4 * H]])
     P["_shape"] = (H, W)
     return P
 
@@ -144,6 +148,9 @@ def registry(darsia):
     # extraction
     add("subregion_slices", lambda P, r: P["A"].subregion((slice(0, 2), slice(1, None))))
     add("subregion_voxels", lambda P, r: P["A"].subregion(darsia.make_voxel([[0, 0], [2, 2]])))
+    add("subregion_caller_voxels", lambda P, r: P["A"].subregion(P["roi_vox_in"]))
+    add("subregion_caller_voxels_outside", lambda P, r: P["A"].subregion(P["roi_vox_out"]))
+    add("subregion_caller_coords_outside", lambda P, r: P["A"].subregion(P["roi_xy_out"]))
     add("subregion_coords", lambda P, r: P["A"].subregion(darsia.make_coordinate([list(P["A"].origin), list(P["A"].opposite_corner)])))
     add("time_slice", lambda P, r: P["S"].time_slice(1))
     add("time_interval", lambda P, r: P["S"].time_interval(slice(0, 2)))
